@@ -18,7 +18,8 @@ CHECKS = {
                 "Trusts numpy linear algebra; bounds re-derived from the documented thresholds; tolerance 1e-9 relative.",
                 "Hypothesis generated MDPs, exact-solution oracle (Howard PI + linear solves) with a-priori error bounds", "2/C01"),
     "C02": _mdp("Generated MDPs x arbitrary (V, gamma) pairs: one sweep compared state by state with a numpy Bellman backup; "
-                "greedy policy validity; shift / monotonicity / contraction laws on the implementation's outputs.",
+                "greedy policy validity; shift / monotonicity / contraction laws on the implementation's outputs. One case in twelve has an action or "
+                "event axis of 1025..2049 entries whose vectors may start at 1, foreign vectors being answered with a poison reward.",
                 "A sweep is observed through documented attributes (values, gamma, solve(1)); self-checked per case.",
                 "Hypothesis generated MDPs and value vectors, numpy reference backup + metamorphic relations", "2/C02"),
     "C03": _mdp("Generated MDPs (1..200 states) x solver x 2-3 batch sizes executed by persistent workers under 1, 2, 3, 4 and 8 emulated "
@@ -55,7 +56,8 @@ CHECKS = {
                 design="2/C09"),
     "C10": _mdp("Generated solver x problem x checkpoint settings x step x override subsets: a fresh process restores and is compared, "
                 "field by field and bit for bit, with the state snapshotted when save(step) was called; configuration equality, override "
-                "effects, byte-identity of the original directory, and the documented error paths.",
+                "effects (attributes AND the steps on disk after a further solve(), judged with the frequency / retention in effect), byte-identity "
+                "of the original directory, and the documented error paths.",
                 "Snapshots are taken by wrapping the public save(); states cross processes as JSON (exact float round-trip).",
                 "Hypothesis generated save/restore round-trips across processes, snapshot oracle + directory content hashes", "2/C10"),
     "C11": dict(category="fault_enumeration",
@@ -88,7 +90,8 @@ CHECKS = {
                 "Absolute tolerance 1e-5 (accuracy limit of jax betaln inside numpyro's negative binomial, see DESIGN).",
                 "Hypothesis generated parameterisations, differential against scipy reference distributions", "2/C16"),
     "C17": _mdp("Generated tabular problems x tolerance x optional mass defect: returned matrices against numpy accumulation, "
-                "error path (ValueError naming the pair) and solve-both-ways agreement.",
+                "error path (ValueError naming the pair) and solve-both-ways agreement; two thirds of the cases call the builder on the same "
+                "problem object beforehand with other tolerances (history independence).",
                 "Reads the named pair from the message format 'state i, action j'.",
                 "Hypothesis generated problems and fault injection (mass defect), numpy accumulation + exact-solve differential", "2/C17"),
     "C20": _mdp("Generated solver class x problem x parameter values on and around every documented boundary, optionally one "
